@@ -237,6 +237,16 @@ func (c11) Run(c *Ctx, i int) CaseResult {
 			break
 		}
 	}
+	if len(res.Fails) == 0 {
+		// the gateway's own resolver works on the document of a plan that other requests share: it must answer like the
+		// model and leave the document as it was (L2.gateway-query, 3 documents)
+		for k := 0; k < 3; k++ {
+			if gf, _ := GwQueryCorr(c, c.Rand(i*100+k+94000000)); len(gf) > 0 {
+				res.Fails = append(res.Fails, gf...)
+				break
+			}
+		}
+	}
 	if len(res.Fails) == 0 && cachedPlan {
 		// requests without a persisted-query hash whose texts differ only in significant white space: each gets the
 		// answer a gateway that has seen nothing else gives
